@@ -690,6 +690,14 @@ func TestVerifC19(t *testing.T) {
 			toV := func(c, of, v, tag int) hdOp {
 				return hdOp{K: "msg", C: c, To: &hdRecipient{T: "session", Id: &hdIdRef{T: "vpub", C: of, V: v}}, Tag: tag}
 			}
+			ctlV := func(c, of, v, tag int) hdOp {
+				return hdOp{K: "ctl", C: c, To: &hdRecipient{T: "session", Id: &hdIdRef{T: "vpub", C: of, V: v}}, Tag: tag}
+			}
+			joinPerm := func(c, room, rs int, p ...int) hdOp {
+				o := hdJoinOp(c, room, rs)
+				o.HasP, o.Perm = true, p
+				return o
+			}
 			var out []*hdCase
 			for i, ops := range [][]hdOp{
 				// add, update, remove; remove twice; unknown id; room of nobody
@@ -713,6 +721,30 @@ func TestVerifC19(t *testing.T) {
 					upd(1, 2, 1, 0, 9), {K: "connect", C: 5}, {K: "hello", C: 5, B: 0, U: 5}, hdJoinOp(5, 1, 5), hdJoinOp(2, 0, 0), hdJoinOp(2, 1, 2), rem(1, 1, 1), hdJoinOp(4, 0, 0), hdJoinOp(4, 1, 4)},
 				// two internal clients with the same chosen id; an ordinary client trying
 				{addv(1, 1, 1, 5), hdJoinOp(3, 1, 0), addv(3, 1, 1, 6), rem(3, 1, 1), toV(2, 1, 1, 17), toV(2, 3, 1, 18), addv(2, 1, 1, 7), upd(2, 1, 1, 1, 1), rem(2, 1, 1)},
+				// messages and control messages to a virtual session from everybody who can name it: the internal client it
+				// belongs to, another internal client (with a virtual session of its own), an ordinary session in its room, one
+				// in another room / in no room, one that may not send control messages, a session of the other backend; to each
+				// of two virtual sessions of one client and to the one of the other client; the unrelated members of a
+				// recipient; then again after the owner changed rooms, after one was replaced (same chosen id) and removed
+				{addv(1, 1, 1, 5), addv(1, 2, 1, 6), hdJoinOp(3, 1, 0), addv(3, 1, 1, 7),
+					{K: "connect", C: 4}, {K: "hello", C: 4, B: 0, U: 4}, joinPerm(4, 2, 4, 0), {K: "connect", C: 5}, {K: "hello", C: 5, B: 1, U: 5}, hdJoinOp(5, 1, 5),
+					{K: "connect", C: 6}, {K: "hello", C: 6, B: 0, U: 6},
+					toV(1, 1, 1, 20), ctlV(1, 1, 1, 21), toV(1, 1, 2, 22), ctlV(1, 1, 2, 23), toV(1, 3, 1, 24), ctlV(1, 3, 1, 25),
+					toV(3, 1, 1, 26), ctlV(3, 1, 2, 27), toV(3, 3, 1, 28), ctlV(3, 3, 1, 29),
+					toV(2, 1, 1, 30), ctlV(2, 1, 2, 31), toV(2, 3, 1, 32), ctlV(2, 3, 1, 33),
+					toV(4, 1, 1, 34), ctlV(4, 1, 1, 35), toV(5, 1, 1, 36), ctlV(5, 3, 1, 37), toV(6, 1, 2, 38), ctlV(6, 3, 1, 39),
+					{K: "msg", C: 1, To: &hdRecipient{T: "session", Id: &hdIdRef{T: "vpub", C: 1, V: 1}, SU: 2}, Tag: 40},
+					{K: "ctl", C: 1, To: &hdRecipient{T: "session", Id: &hdIdRef{T: "vpub", C: 1, V: 2}, SId: &hdIdRef{T: "pub", C: 2}}, Tag: 41},
+					{K: "msg", C: 1, To: hdToSession(1), Tag: 42}, {K: "ctl", C: 1, To: hdToSession(3), Tag: 43}, {K: "msg", C: 3, To: hdToSession(1), Tag: 44},
+					hdJoinOp(1, 2, 0), toV(1, 1, 1, 45), ctlV(1, 1, 2, 46), toV(2, 1, 1, 47),
+					addv(1, 1, 2, 8), toV(1, 1, 1, 48), ctlV(1, 1, 1, 49), ctlV(3, 1, 1, 50), rem(1, 2, 1), toV(1, 1, 2, 51), ctlV(1, 1, 2, 52),
+					{K: "bye", C: 3}, toV(1, 3, 1, 53), ctlV(1, 3, 1, 54), toV(1, 1, 1, 55)},
+				// the owner is disconnected / resumed on a new connection / its writes fail: what is addressed to its virtual
+				// session follows its session
+				{addv(1, 1, 1, 5), toV(1, 1, 1, 60), {K: "drop", C: 1}, toV(2, 1, 1, 61), ctlV(2, 1, 1, 62),
+					{K: "connect", C: 4}, {K: "hello", C: 4, Ht: "resume", Id: &hdIdRef{T: "priv", C: 1}},
+					{K: "msg", C: 4, To: &hdRecipient{T: "session", Id: &hdIdRef{T: "vpub", C: 1, V: 1}}, Tag: 63},
+					{K: "ctl", C: 4, To: &hdRecipient{T: "session", Id: &hdIdRef{T: "vpub", C: 1, V: 1}}, Tag: 64}, toV(2, 1, 1, 65)},
 			} {
 				out = append(out, &hdCase{Id: i, Mode: 1, Ops: append(append([]hdOp{}, base...), ops...)})
 			}
